@@ -37,7 +37,10 @@ class PettingZooAutoResetParallelWrapper(ParallelEnv):
         dict[AgentID, dict],
     ]:
         obs, rewards, terminations, truncations, infos = self.env.step(actions)
-        if np.all(list(terminations.values()) or list(truncations.values())):
+        # Restart once every agent has finished, whether by termination or truncation
+        if all(
+            terminations[agent] or truncations[agent] for agent in terminations.keys()
+        ):
             obs, infos = self.env.reset()
         return obs, rewards, terminations, truncations, infos
 
